@@ -141,12 +141,10 @@ func wsOpen(c WSCase) (*wsSession, *evid.Failure) {
 		mark := tapEP.mark()
 		s := &wsSession{a: a}
 		var uerr error
-		ok, pan := within(httpTimeouts[try], func() {
+		ok, pan, more := withinMore(httpTimeouts[try], func() {
 			url := urlFor(c.Addr, c.Port, wsPath)
-			pause := time.Duration(20*(try+1)) * time.Millisecond
 			if c.Mode == 0 {
 				wc, _ := websocket.NewClient(url)
-				time.Sleep(pause)
 				if uerr = wc.Upgrade(); uerr == nil {
 					s.wc = wc
 				}
@@ -157,7 +155,6 @@ func wsOpen(c WSCase) (*wsSession, *evid.Failure) {
 				uerr = err
 				return
 			}
-			time.Sleep(pause)
 			hc.SetMethod("GET")
 			hc.SetHeaders(map[string]string{idHeader: a.id, "Upgrade": "websocket", "Connection": "Upgrade",
 				"Sec-WebSocket-Key": c.Key, "Sec-WebSocket-Version": "13"})
@@ -165,6 +162,26 @@ func wsOpen(c WSCase) (*wsSession, *evid.Failure) {
 				s.hc = hc
 			}
 		})
+		if !ok {
+			// slow or lost? (see runHTTP)
+			if k, ferr := tapEP.newFlowSince(mark, portOf(c.Port)); ferr == nil {
+				c2s, s2c := tapEP.streams(k)
+				if _, whole := splitHTTP(c2s.data); whole && len(s2c.data) == 0 {
+					ok, pan = more(12 * time.Second)
+					_, s2c = tapEP.streams(k)
+					if !ok && len(s2c.data) == 0 {
+						if c.Mode == 0 {
+							currentWS.Store(nil)
+						}
+						a.release()
+						return nil, evid.Failf("ws-upgrade-request-lost", "the upgrade request (%d bytes) was on the wire completely %v ago, yet the server has emitted no byte of a response and the client is still waiting: the request is lost inside the server", len(c2s.data), httpTimeouts[try]+12*time.Second)
+					}
+					if ok {
+						evid.Label("ws_upgrade_slow_but_answered")
+					}
+				}
+			}
+		}
 		if c.Mode == 0 {
 			currentWS.Store(nil)
 		}
